@@ -255,6 +255,9 @@ for _r, _props in REFACTORINGS.items():
     # second pass over the same regions (round B2: structural rewrites - helpers, NamedTuples, match, walrus, generators)
     CORPUS.append({"name": f"refactoring-B2-{_r}", "props": ALL.split(","), "kind": "benign", "edits": [],
                    "diff": f"benign/B2-{_r}/refactor.diff"})
+    # third pass (round B3: private renames, dispatch tables, context managers, value classes, computed constants)
+    CORPUS.append({"name": f"refactoring-B3-{_r}", "props": ALL.split(","), "kind": "benign", "edits": [],
+                   "diff": f"benign/B3-{_r}/refactor.diff"})
 
 # ---------------------------------------------------------------- the independently seeded breaking changes (seeded/<id>/patch.diff):
 # the target property's check must report each of them
